@@ -40,11 +40,17 @@ def _mk(su: Setup, layout: tuple[int, ...], pool_to: int | None, behaviours: tup
            for mode in ("cancel == 0 and d0 <= 30", "cancel > 0 and d0 == 0 and c0 == 0")],
     per_prop={p: {"quick": [{"ct": ct, "N": 1, "P": 1, "_pre": f"lay == {lay} and beh <= 1 and pto == 0 and {mode}"}
                             for ct in ("h11", "h2") for lay in (3,)
-                            for mode in ("cancel == 0 and d0 <= 30", "cancel > 0 and d0 == 0 and c0 == 0")]}
+                            for mode in ("cancel == 0 and d0 <= 30", "cancel > 0 and d0 == 0 and c0 == 0")],
+                  "thorough": [{"ct": ct, "N": n, "P": 1, "_pre": f"lay == {lay} and {mode}"}
+                               for ct in ("h11", "h2", "h1-on-h2-pool") for n in (1, 2) for lay in (2, 3, 4)
+                               for mode in ("cancel == 0", "cancel > 0 and d0 == 0 and c0 == 0")]}
               for p in ("C01", "C04", "C05", "C06", "C08", "C15")},
-    thorough=[{"ct": ct, "N": n, "P": 2, "_pre": f"lay == {lay} and cancel == 0 and d0 % 4 == {r}"}
-              for ct in ("h11", "h2", "h1-on-h2-pool", "tunnel") for n in (1, 2) for lay in range(6) for r in range(4)]
-    + [{"ct": ct, "N": n, "P": 1, "_pre": f"lay == {lay} and cancel > 0"}
+    thorough=[{"ct": ct, "N": 1, "P": 2, "_timeout": 900,
+               "_pre": f"lay == {lay} and cancel == 0 and beh == 0 and pto == 0 and d0 % 4 == {r}"}
+              for ct in ("h11", "h2") for lay in (2, 3) for r in range(4)]
+    + [{"ct": ct, "N": n, "P": 1, "_pre": f"lay == {lay} and cancel == 0"}
+       for ct in ("h11", "h2", "h1-on-h2-pool", "tunnel") for n in (1, 2) for lay in range(6)]
+    + [{"ct": ct, "N": n, "P": 1, "_pre": f"lay == {lay} and cancel > 0 and d0 == 0 and c0 == 0"}
        for ct in ("h11", "h2", "h1-on-h2-pool", "tunnel") for n in (1, 2) for lay in range(6)],
     example=dict(lay=2, d0=3, c0=1, d1=0, c1=0, beh=0, pto=0, cancel=0),
     require=("all-served", "waited"),
